@@ -120,3 +120,72 @@ func c08SlowStats(r *Run) {
 	cc.Close()
 	within(hangTimeout, func() { <-served })
 }
+
+// c08ExpiresMidSend: the caller's deadline expires between the moment the call is set up and the moment
+// its request is written (a client stats handler takes 25 ms in OutPayload, the caller's timeout is
+// 5 ms), over the library's own channel transport, whose Write chooses at random between a done context
+// and a ready channel — so about every other request still reaches the server. Whenever one does, the
+// handler has a deadline (an expired one is conveyed as one millisecond), never none.
+type c08SlowPayload struct{ d time.Duration }
+
+func (h c08SlowPayload) TagRPC(ctx context.Context, _ *stats.RPCTagInfo) context.Context { return ctx }
+func (h c08SlowPayload) HandleRPC(_ context.Context, s stats.RPCStats) {
+	switch s.(type) {
+	case *stats.OutPayload, *stats.OutHeader:
+		time.Sleep(h.d)
+	}
+}
+func (h c08SlowPayload) TagConn(ctx context.Context, _ *stats.ConnTagInfo) context.Context {
+	return ctx
+}
+func (h c08SlowPayload) HandleConn(context.Context, stats.ConnStats) {}
+
+func c08ExpiresMidSend(r *Run) {
+	if !r.Want("midsend") {
+		return
+	}
+	c2s, s2c := make(chan *Rpc, 64), make(chan *Rpc, 64)
+	cliRW := goat.NewGoatOverChannel(s2c, c2s)
+	srvRW := goat.NewGoatOverChannel(c2s, s2c)
+	impl := &Impl{}
+	type obs struct {
+		has bool
+		dl  time.Time
+	}
+	seen := make(chan obs, 64)
+	impl.SetUnary(func(ctx context.Context, req []byte) ([]byte, error) {
+		dl, has := ctx.Deadline()
+		seen <- obs{has, dl}
+		return req, nil
+	})
+	impl.SetStream(func(m string, ss grpc.ServerStream) error { return nil })
+	srv := goat.NewServer("srv")
+	srv.RegisterService(&echoDesc, impl)
+	ctx, cancelAll := context.WithCancel(context.Background())
+	served := make(chan error, 1)
+	go func() { served <- srv.Serve(ctx, srvRW) }()
+	cc := goat.NewClientConn(cliRW, "cli", "srv", goat.WithStatsHandler(c08SlowPayload{25 * time.Millisecond}))
+	reached := 0
+	attempts := r.Scale(24, 200)
+	for i := 0; i < attempts && r.NumViolations() == 0; i++ {
+		in := map[string]any{"attempt": i, "caller_timeout": "5ms", "client_stats_takes": "25ms before the request is written"}
+		r.Progress("midsend", in)
+		cctx, cancel := context.WithTimeout(context.Background(), 5*time.Millisecond)
+		callUnary(cctx, cc, []byte("x"))
+		cancel()
+		select {
+		case o := <-seen:
+			reached++
+			if !o.has {
+				r.Violate("midsend.lost", "ops", "the caller had a deadline (it expired while the request was being sent) but the handler's context has none", in, "no deadline", "a deadline (one millisecond when expired)")
+			}
+		case <-time.After(20 * time.Millisecond):
+		}
+		r.Eval(fmt.Sprintf("midsend/%d", i), true)
+	}
+	r.CountN("midsend.requests_that_reached_the_handler", reached)
+	srv.Stop()
+	cancelAll()
+	cc.Close()
+	within(hangTimeout, func() { <-served })
+}
